@@ -180,3 +180,96 @@ def node_sig(prog: dict, t: dict) -> str:
 def compact(obj: Any, limit: int = 400) -> str:
     s = json.dumps(obj, default=repr, sort_keys=True)
     return s if len(s) <= limit else s[:limit] + "..."
+
+
+# ---------------------------------------------------------------------------------------
+# named types: reachability, recursion (C17 / C18)
+# ---------------------------------------------------------------------------------------
+
+def type_refs(t: dict, prog: dict):
+    """Named types directly mentioned by a type expression (not entering class bodies):
+    yields ("cls", i) / ("enum", i) / ("newtype", i)."""
+    k = t["k"]
+    if k == "cls":
+        yield ("cls", t["i"])
+        for a in t.get("args", []):
+            yield from type_refs(a, prog)
+    elif k == "enum":
+        yield ("enum", t["i"])
+    elif k == "newtype":
+        yield ("newtype", t["i"])
+        yield from type_refs(prog["newtypes"][t["i"]]["of"], prog)
+    elif k == "lit":
+        for v in t["values"]:
+            if isinstance(v, dict) and "enum" in v:
+                pass
+    for key in ("of", "key", "val"):
+        if isinstance(t.get(key), dict) and k != "newtype":
+            yield from type_refs(t[key], prog)
+    for key in ("alts", "items"):
+        for x in t.get(key, []):
+            yield from type_refs(x, prog)
+
+
+def class_edges(prog: dict, i: int):
+    out = set()
+    for f in prog["classes"][i]["fields"]:
+        for kind, j in type_refs(f["t"], prog):
+            if kind == "cls":
+                out.add(j)
+    return out
+
+
+def recursive_classes(prog: dict):
+    """Indices of classes lying on a reference cycle."""
+    n = len(prog["classes"])
+    edges = {i: class_edges(prog, i) for i in range(n)}
+    rec = set()
+    for i in range(n):
+        seen, todo = set(), list(edges[i])
+        while todo:
+            j = todo.pop()
+            if j == i:
+                rec.add(i)
+                break
+            if j in seen:
+                continue
+            seen.add(j)
+            todo.extend(edges[j])
+    return rec
+
+
+def _dir_fields(cd: dict, direction=None):
+    if direction == "serialization":
+        return M.ser_fields(cd)
+    if direction == "deserialization":
+        return M.des_fields(cd)
+    return cd["fields"]
+
+
+def reachable_named(prog: dict, t: dict, direction=None):
+    """All named types reachable from t: set of ("cls"|"enum"|"newtype", index); with a direction,
+    fields invisible to that operation (skip metadata, InitVar / init=False) are not followed."""
+    out, todo = set(), [t]
+    while todo:
+        cur = todo.pop()
+        for ref in type_refs(cur, prog):
+            if ref in out:
+                continue
+            out.add(ref)
+            if ref[0] == "cls":
+                todo.extend(f["t"] for f in _dir_fields(prog["classes"][ref[1]], direction))
+    return out
+
+
+def named_occurrences(prog: dict, t: dict, direction=None):
+    """How many times each named type is mentioned from t (each reachable class body counted once)."""
+    counts, seen, todo = {}, set(), [t]
+    while todo:
+        cur = todo.pop()
+        for ref in type_refs(cur, prog):
+            counts[ref] = counts.get(ref, 0) + 1
+            if ref[0] == "cls" and ref not in seen:
+                seen.add(ref)
+                todo.extend(f["t"] for f in _dir_fields(prog["classes"][ref[1]], direction))
+    return counts
